@@ -244,6 +244,12 @@ def term_correspondence(chk, fam, text, symm, variant, quads, ns, negl):
         chk.case("C14-terms %s | susc %d %d %d %d" % ((L.canon(text),) + q), sig, nontrivial=tot[0] > 0,
                  sample={"scenario": L.canon(text), "quad": list(q), "matched/kept/dropped/new/merged/negl/refused/zero": tot,
                          "walk": {"strict": strict, "lenient": lenient}} if tot[7] and "PastEnd" in strict else None)
+        if tot[6]:
+            chk.tie_broken("term lost", "the model's add_term loop ran out of its bound (excluded by termlist_loop_terminates): %s" % L.canon(text))
+        chain = max([int(t[3]) for t in L.recs(r.model, "MCHAIN")] or [0])
+        if chain > 1:
+            chk.tie_broken("merge chain", "an added term went through %d merges (termlist_invariant: at most one with the library's "
+                           "comparator): %s" % (chain, L.canon(text)))
 
 
 def report(chk, fam, text, nmodes, symm, variant, fail, ns, taus):
@@ -350,8 +356,8 @@ def run(chk):
                     "operators of SusceptibilityPart and Susceptibility (sum over parts, subtraction of the disconnected part), EnsembleAverage::compute "
                     "(coq/gen/Gen_Leh*.v in the vocabulary coq/theories/LehmannShapes.v, interpreted by coq/theories/LehmannInterp.v); translator/gen_thermal.py "
                     "for the loop body of Susceptibility::prepare (Gen_RetainSusc.v); Properties_C14_source.v = the agreement with the hand-written models and "
-                    "the theorems about the interpreted source. coq/theories/TermList.v models add_term in its find/erase/insert form: it agrees with the "
-                    "retry loop of the source when at most one stored term is like the added one and differs otherwise (Properties_C01_source.v)",
+                    "the theorems about the interpreted source. coq/theories/TermList.v models add_term as the retry loop the source has: it agrees with "
+                    "the interpreted source on every input, no hypothesis (Properties_C01_source.v: add_term_src_agrees_with_model)",
                     "extraction: ExtrOcamlBasic, ExtrOcamlNatInt, ExtrOCamlFloats; no Extract Constant of our own",
                     "ocaml/driver_c01.ml, ocaml/driver_ed.ml, harness/h_c01.cpp, harness/h_ed.cpp, harness/ed_common.h",
                     "Eigen's self-adjoint solver: certified per run; exp of libm"]
